@@ -346,23 +346,9 @@ def decodeFailureX (C : OnionCrypto) (keys : List FailKeysX) (pkt : Bytes) (attr
   if pkt.length < 32 then (.unattributable, []) else
   decodeGoX C (min keys.length MAX_HOPS) 0 keys pkt attr false []
 
--- mirrors lightning/src/ln/onion_utils.rs::process_fulfill_attribution_data
-def fulfillAttr (C : OnionCrypto) (k : FailKeysX) (attr : Option Attr) (holdTime : Nat) : Attr :=
-  let a := match attr with | some a => a.shiftRight | none => Attr.new
-  (a.update C k.um [] holdTime).crypt C k.ammagext
-
-def decodeFulfillGo (C : OnionCrypto) (count : Nat) : Nat → List FailKeysX → Attr → List Nat → List Nat
-  | _, [], _, holds => holds
-  | i, k :: rest, a, holds =>
-    if i ≥ count then holds else
-    let a := a.crypt C k.ammagext
-    match a.verify C k.um [] (count - i - 1) with
-    | some h => decodeFulfillGo C count (i + 1) rest a.shiftLeft (holds ++ [h])
-    | none => holds
-
--- mirrors lightning/src/ln/onion_utils.rs::decode_fulfill_attribution_data
-def decodeFulfillAttr (C : OnionCrypto) (keys : List FailKeysX) (a : Attr) : List Nat :=
-  decodeFulfillGo C (min keys.length MAX_HOPS) 0 keys a []
+/- process_fulfill_attribution_data / decode_fulfill_attribution_data (the fulfil direction) are TRANSLATED:
+   Generated/OnionFail.lean (processFulfillAttributionData, fulfillAttributableHopCount, fulfillPosition,
+   decodeFulfillLoop, decodeFulfillAttributionData); theorems in Proofs/OnionFulfil.lean, Props/C14.lean. -/
 
 /-! ## Concrete instantiation: ChaCha20 (zero nonce) / HMAC-SHA256 and LDK's key derivations -/
 
